@@ -2,6 +2,7 @@ package main
 
 import (
 	"bytes"
+	"net/http"
 	"context"
 	"encoding/json"
 	"fmt"
@@ -246,4 +247,96 @@ func runWSLong(ver string, seconds, gap int) []string {
 	mu.Lock()
 	defer mu.Unlock()
 	return []string{fmtEvents(false, got), "alive=" + alive}
+}
+
+// wsbad <n> <burst>
+//
+// Requests that hit the monitor routes (v1 and v2, all-mailboxes and per-mailbox) WITHOUT being valid WebSocket
+// upgrades — plain GET, upgrade headers with a foreign Origin, wrong Sec-WebSocket-Version, HEAD, POST —, <n> rounds of
+// them; none may leave anything behind in the hub. Then <burst> events are dispatched with a healthy harness listener
+// attached and the hub must come to rest.
+//
+//	field 1  refused=<requests answered with something other than 101>/<requests made>
+//	field 2  T=<events the healthy listener got>      field 3  ok | blocked
+func runWSBad(n, burst int) []string {
+	ctx, cancel := context.WithCancel(context.Background())
+	defer cancel()
+	host := extension.NewHost()
+	hub := msghub.New(5, host)
+	go hub.Start(ctx)
+	storage.Constructors["memory"] = mem.New
+	st, err := mem.New(config.Storage{MailboxMsgCap: 10}, host)
+	if err != nil {
+		return []string{"SETUP-FAILED"}
+	}
+	conf := &config.Root{MailboxNaming: config.LocalNaming}
+	mm := &message.StoreManager{AddrPolicy: &policy.Addressing{Config: conf}, Store: st, ExtHost: host}
+	routesOnce.Do(func() { rest.SetupRoutes(web.Router.PathPrefix("/api/").Subrouter()) })
+	web.NewServer(conf, mm, hub)
+	srv := httptest.NewServer(web.Router)
+	defer srv.Close()
+	healthy := &mock{fail: -1}
+	hub.AddListener(healthy)
+	syncWait(hub, syncDeadline)
+
+	paths := []string{"/api/v1/monitor/messages", "/api/v1/monitor/messages/a", "/api/v2/monitor/messages", "/api/v2/monitor/messages/a"}
+	type shape struct {
+		method string
+		hdr    map[string]string
+	}
+	up := map[string]string{"Connection": "Upgrade", "Upgrade": "websocket", "Sec-WebSocket-Key": "dGhlIHNhbXBsZSBub25jZQ==", "Sec-WebSocket-Version": "13"}
+	with := func(k, v string) map[string]string {
+		m := map[string]string{}
+		for a, b := range up {
+			m[a] = b
+		}
+		m[k] = v
+		return m
+	}
+	shapes := []shape{
+		{"GET", nil},                                      // a browser navigating to the URL
+		{"GET", with("Origin", "http://evil.example")},    // cross-origin upgrade: refused by the upgrader
+		{"GET", with("Sec-WebSocket-Version", "8")},       // unsupported protocol version
+		{"HEAD", nil}, {"POST", nil},
+		{"GET", map[string]string{"Connection": "Upgrade", "Upgrade": "websocket"}}, // no key
+	}
+	client := &http.Client{Timeout: 2 * time.Second}
+	made, refused := 0, 0
+	for r := 0; r < n; r++ {
+		for _, p := range paths {
+			for _, sh := range shapes {
+				req, err := http.NewRequest(sh.method, srv.URL+p, nil)
+				if err != nil {
+					continue
+				}
+				for k, v := range sh.hdr {
+					req.Header.Set(k, v)
+				}
+				made++
+				resp, err := client.Do(req)
+				if err != nil {
+					refused++
+					continue
+				}
+				if resp.StatusCode != 101 {
+					refused++
+				}
+				resp.Body.Close()
+			}
+		}
+	}
+	for i := 0; i < burst; i++ {
+		mb, id := wsMsg(i)
+		if !within(syncDeadline, func() { hub.Dispatch(event.MessageMetadata{Mailbox: mb, ID: id, Date: time.Now()}) }) {
+			break
+		}
+	}
+	res := "ok"
+	if !syncWait(hub, syncDeadline) {
+		res = "blocked"
+	}
+	healthy.mu.Lock()
+	t := fmtEvents(false, healthy.rec)
+	healthy.mu.Unlock()
+	return []string{fmt.Sprintf("refused=%d/%d", refused, made), t, res}
 }
